@@ -142,6 +142,11 @@ func cmdCheck(args []string) int {
 				need[cf.Pkg] = true
 			}
 		}
+		for _, t := range cf.Types {
+			if hasProp(t.Properties, *prop) {
+				need[cf.Pkg] = true
+			}
+		}
 	}
 	if len(need) == 0 {
 		fmt.Fprintf(os.Stderr, "BROKEN: no contract carries property %s\n", *prop)
@@ -218,6 +223,12 @@ func cmdCheck(args []string) int {
 	for _, l := range prog.lemmas {
 		if hasProp(l.Properties, *prop) && (*only == "" || strings.Contains(l.Name, *only)) {
 			units = append(units, prog.verifyLemma(l))
+		}
+	}
+	for _, k := range sortedKeys(prog.typeSpecs) {
+		ts := prog.typeSpecs[k]
+		if hasProp(ts.Properties, *prop) && len(ts.Writers) > 0 && *only == "" {
+			units = append(units, prog.verifyWriters(ts))
 		}
 	}
 	tGen := time.Since(t0).Seconds() - tLoad
@@ -321,7 +332,15 @@ func cmdCheck(args []string) int {
 				}
 			}
 		}
-		if nret > 0 && reach == 0 {
+		failedHere := false
+		for _, v := range violations {
+			if v.Unit == u.Name {
+				failedHere = true
+			}
+		}
+		if nret > 0 && reach == 0 && !failedHere {
+			// (after a failed obligation its goal is assumed, which may make the rest
+			// of the unit unreachable; the violation is what is reported then)
 			fmt.Fprintf(os.Stderr, "BROKEN: no reachable return in %s (vacuous)\n", u.Name)
 			broken = true
 		}
